@@ -167,6 +167,9 @@ namespace adept {
     // "true" return value indicates success.
     bool update_lhs(const uIndex& gradient_index) {
       if (statement_[n_statements_-1].index != gradient_index) {
+	// Discard the operations pushed since the previous statement,
+	// otherwise they would become part of the next one
+	n_operations_ = statement_[n_statements_-1].end_plus_one;
 	return false;
       }
       else {
